@@ -326,6 +326,46 @@ func init() {
 			}), true
 		}
 
+		// ---- sync.Pool: sequential model (LIFO free list per pool object) ----
+		poolNew := func(m *Machine, p Ptr) value {
+			for _, pk := range m.prog.AllPackages() {
+				if pk.Pkg.Path() == "sync" {
+					st := pk.Pkg.Scope().Lookup("Pool").Type().Underlying().(*types.Struct)
+					for i := 0; i < st.NumFields(); i++ {
+						if st.Field(i).Name() == "New" {
+							return p.obj.cells[p.idx+m.fieldOff(st, i)]
+						}
+					}
+				}
+			}
+			return Func{}
+		}
+		ic["(*sync.Pool).Get"] = func(m *Machine, f *Frame, a []value) (value, bool) {
+			p := a[0].(Ptr)
+			m.stubsHit["sync.Pool(sequential LIFO model)"]++
+			if lst := m.pools[p.obj]; len(lst) > 0 {
+				v := lst[len(lst)-1]
+				m.undoLog(func() { m.pools[p.obj] = lst })
+				m.pools[p.obj] = lst[:len(lst)-1 : len(lst)-1]
+				return v, true
+			}
+			nf := poolNew(m, p).(Func)
+			if nf.fn == nil {
+				return Iface{}, true
+			}
+			return m.callCont(nf.fn, nil, nf.env, func(m *Machine, r value) value { return r }), true
+		}
+		ic["(*sync.Pool).Put"] = func(m *Machine, f *Frame, a []value) (value, bool) {
+			p := a[0].(Ptr)
+			if m.pools == nil {
+				m.pools = map[*Object][]value{}
+			}
+			lst := m.pools[p.obj]
+			m.undoLog(func() { m.pools[p.obj] = lst })
+			m.pools[p.obj] = append(lst[:len(lst):len(lst)], a[1])
+			return nil, true
+		}
+
 		// ---- reflect.New and reflect.Type values ----
 		ic["reflect.New"] = func(m *Machine, f *Frame, a []value) (value, bool) {
 			rt := a[0].(Iface).v.(reflType)
@@ -363,7 +403,8 @@ func (m *Machine) reflTypeMethod(rt reflType, name string) *nativeFn {
 		}}
 	case "Size":
 		return &nativeFn{name: "Type.Size", f: func(m *Machine, args []value) value {
-			return m.tb.Const(64, uint64(m.binSize(rt.t, nil, false)))
+			// reflect.Type.Size is the in-memory size (alignment padding included), gc/amd64
+			return m.tb.Const(64, uint64(types.SizesFor("gc", "amd64").Sizeof(rt.t)))
 		}}
 	}
 	abortf("reflect.Type method %s not modelled", name)
